@@ -76,8 +76,13 @@ def _r1(ctx):
         seq = norm_text(dbl[0].value.args[0].elts[0])
         ok = norm_text(test[0].test.left) == "len(%s) - 1" % seq and \
             any(isinstance(x, ast.Assign) and const_value(x.value) is False for x in test[0].body)
+        rt = [s for s in fa.node.body if isinstance(s, ast.Return)][-1]
+        fname = rt.value.elts[1].id if isinstance(rt.value, ast.Tuple) and len(rt.value.elts) == 2 and \
+            isinstance(rt.value.elts[1], ast.Name) else None
         init = [s for s in fa.node.body if isinstance(s, ast.Assign) and isinstance(s.targets[0], ast.Name) and
-                s.targets[0].id == "flush" and const_value(s.value) is True]
+                s.targets[0].id == fname and const_value(s.value) is True]
+        ok = ok and any(isinstance(x, ast.Assign) and isinstance(x.targets[0], ast.Name) and x.targets[0].id == fname
+                        for x in test[0].body)
         ft = [c for c in calls_in(fa.node) if (call_name(c) or "").endswith("find_turns") and norm_text(c.args[0]) == dbl[0].targets[0].id]
         ok = ok and bool(init) and bool(ft)
     if ok:
@@ -137,25 +142,31 @@ def _r3(ctx):
     ci = prog.cls(D[:-1])
     half = []
     full = []
+    roles = {}
     for name, defs in ci.methods.items():
         f = defs[-1]
+        names = _unpack_names(f)
+        if not names or len(names) < 10:
+            continue
+        roles[f.key] = names
         for c in calls_in(f.node):
             if isinstance(c.func, ast.Attribute) and c.func.attr == "append" and isinstance(c.func.value, ast.Name) and \
-                    c.func.value.id == "_is_closed_hysteresis":
+                    c.func.value.id == names[8]:
                 (half if const_value(c.args[0]) is False else full).append((f, c))
     if len(half) != 1:
         ctx.violated(D + "*", None, "%d handlers can record a half hysteresis; exactly one (Memory 3) may" % len(half), text="half handlers %d" % len(half))
         return
     f, c = half[0]
     ctx.holds(f, c, "only %s appends closed=False" % f.name)
+    nm = roles[f.key]
     zm = [cc for cc in calls_in(f.node) if isinstance(cc.func, ast.Attribute) and cc.func.attr == "append" and
-          isinstance(cc.func.value, ast.Name) and cc.func.value.id == "_is_zero_mean_stress_and_strain"]
+          isinstance(cc.func.value, ast.Name) and cc.func.value.id == nm[9]]
     if len(zm) == 1 and const_value(zm[0].args[0]) is True:
         ctx.holds(f, zm[0], "half hysteresis: zero-mean flag True")
     else:
         ctx.violated(f, zm[0] if zm else f.node, "half hysteresis is not flagged zero-mean")
-    want = {"_loads_min": ("-", "load"), "_loads_max": ("+", "load"), "_S_min": ("-", "stress"), "_S_max": ("+", "stress"),
-            "_epsilon_min": ("-", "strain"), "_epsilon_max": ("+", "strain")}
+    want = {nm[0]: ("-", "load"), nm[1]: ("+", "load"), nm[2]: ("-", "stress"), nm[3]: ("+", "stress"),
+            nm[4]: ("-", "strain"), nm[5]: ("+", "strain")}
     pts = set()
     bad = []
     for s in walk_function(f.node):
@@ -180,7 +191,7 @@ def _r3(ctx):
         ctx.violated(f, f.node, "half hysteresis mixes values of different points: %s" % sorted(pts), text="half points")
     for g, cc in full:
         zf = [x for x in calls_in(g.node) if isinstance(x.func, ast.Attribute) and x.func.attr == "append" and
-              isinstance(x.func.value, ast.Name) and x.func.value.id == "_is_zero_mean_stress_and_strain"]
+              isinstance(x.func.value, ast.Name) and x.func.value.id == roles[g.key][9]]
         if const_value(cc.args[0]) is True and len(zf) == 1 and const_value(zf[0].args[0]) is False:
             ctx.holds(g, cc, "%s records full hystereses: closed=True, zero-mean=False" % g.name)
         else:
@@ -216,7 +227,17 @@ def _r5(ctx):
         if not isinstance(x, (ast.If, ast.While)) for c in calls_in(x))]
     if len(mem3) != 1:
         raise AnalysisError("_hcm_process_sample: Memory-3 branch not found")
-    same = isinstance(g, ast.If) and norm_text(mem3[0].test) == norm_text(g.test)
+    same = False
+    if isinstance(g, ast.If):
+        from ..sibling import rename as _rn
+        call0 = [s for s in loop.body if isinstance(s, ast.Assign) and isinstance(s.value, ast.Call) and
+                 isinstance(s.value.func, ast.Attribute) and s.value.func.attr == "_hcm_process_sample"]
+        kwmap = {}
+        if call0:
+            for k in call0[0].value.keywords:
+                if isinstance(k.value, ast.Name):
+                    kwmap[k.value.id] = k.arg       # caller's local -> callee's parameter name
+        same = norm_text(mem3[0].test) == norm_text(_rn(g.test, kwmap))
     if same:
         ctx.holds(ps, mem3[0], "Memory-3 test uses the same expression as the maximum update")
     else:
